@@ -215,6 +215,27 @@ func uniqueStore(al *ssa.Alloc) ssa.Value {
 				}
 			}
 		case *ssa.DebugRef:
+		case *ssa.MakeClosure:
+			// captured by a closure: fine as long as the closure only reads it
+			fn, _ := x.Fn.(*ssa.Function)
+			if fn == nil {
+				return nil
+			}
+			for i, b := range x.Bindings {
+				if b != ssa.Value(al) || i >= len(fn.FreeVars) {
+					continue
+				}
+				if fr := fn.FreeVars[i].Referrers(); fr != nil {
+					for _, rr := range *fr {
+						if st, ok := rr.(*ssa.Store); ok && st.Addr == ssa.Value(fn.FreeVars[i]) {
+							return nil
+						}
+						if _, ok := rr.(*ssa.MakeClosure); ok {
+							return nil
+						}
+					}
+				}
+			}
 		default:
 			return nil
 		}
@@ -531,6 +552,21 @@ func ReachFrom(fn *ssa.Function, from ssa.Instruction, cut *Cut, target func(ssa
 		}
 	}
 	return nil
+}
+
+// ReachFromBlock is ReachFrom starting at the first instruction of block b.
+func ReachFromBlock(fn *ssa.Function, b *ssa.BasicBlock, cut *Cut, target func(ssa.Instruction) bool) ssa.Instruction {
+	if len(b.Instrs) == 0 {
+		return nil
+	}
+	first := b.Instrs[0]
+	if target(first) {
+		return first
+	}
+	if cut != nil && cut.Instrs != nil && cut.Instrs(first) {
+		return nil
+	}
+	return ReachFrom(fn, first, cut, target)
 }
 
 // Guarded reports whether every path from entry to target crosses one of the
